@@ -192,7 +192,7 @@ func TestVerifC10(t *testing.T) {
 	}
 	r.Bounds["preemptions"] = maxPreempt
 	r.Bounds["semaphore_sizes"] = []int{1, 2}
-	r.Extra["rule"] = "14 scenarios (shared local action, caller+callee, sibling/nested repositories (.git directory and .git file), shared-slice messages, broken callees, files that stop early, files outside any repository (also in a directory above the repositories), -format, -config-file) x every subset and argument order of their files x semaphore size {1,2} x all interleavings of the real LintFiles up to the preemption bound; oracle: per-file diagnostics = LintFile alone, once-per-run defects exactly once, fingerprints of shared tables and configs unchanged at every scheduling point; class = (scenario, file order, per-file diagnostic counts); non-trivial = more than one file with diagnostics"
+	r.Extra["rule"] = "14 scenarios (shared local action, caller+callee, sibling/nested repositories (.git directory and .git file), shared-slice messages, broken callees, files that stop early, files outside any repository (also in a directory above the repositories), -format, -config-file; plus, free-running, every workflow of 4 repositories through LintRepository / LintDir / LintFiles with and without an explicit project) x every subset and argument order of their files x semaphore size {1,2} x all interleavings of the real LintFiles up to the preemption bound; oracle: per-file diagnostics = LintFile alone, once-per-run defects exactly once, fingerprints of shared tables and configs unchanged at every scheduling point; class = (scenario, file order, per-file diagnostic counts); non-trivial = more than one file with diagnostics"
 	r.Extra["assumptions"] = []string{"data races are outside a cooperative scheduler's reach (supported by a separate free-running -race pass, not decided here)", "GOMAXPROCS is subsumed by interleavings under data-race freedom"}
 	root := vTempDir(t, "c10-")
 	vWriteFiles(t, root, c10Tree)
@@ -273,6 +273,12 @@ func TestVerifC10(t *testing.T) {
 			r.Class("sequential:"+strings.SplitN(in.name, ":", 2)[0], true)
 		}
 		if isReplay && replay.Scenario == "sequential" {
+			return
+		}
+	}
+	if (r.Shard == 0 && !isReplay) || (isReplay && replay.Scenario == "entry-points") {
+		c10EntryPoints(r, root)
+		if isReplay {
 			return
 		}
 	}
@@ -457,6 +463,113 @@ func c10ConfigID(c *Config) string {
 	sort.Strings(ls)
 	sort.Strings(vs)
 	return strings.Join(ls, ",") + "|" + strings.Join(vs, ",")
+}
+
+// c10EntryPoints: the other ways several files get into one run - LintRepository, LintDir and
+// LintFiles with an explicit project - give every workflow of a repository the diagnostics it
+// gets alone (free-running, real goroutines; the interleavings are the business of the scenarios).
+func c10EntryPoints(r *vReport, root string) {
+	onceFrags := []string{"could not parse action metadata", "is required in metadata of", "is required in action metadata", "could not read reusable workflow file", "error while parsing reusable workflow"}
+	isOnce := func(d string) bool {
+		for _, f := range onceFrags {
+			if strings.Contains(d, f) {
+				return true
+			}
+		}
+		return false
+	}
+	for _, repoDir := range []string{"repo", "repo2", "repo/sub", "repo/wt"} {
+		wdir := filepath.Join(root, repoDir, ".github", "workflows")
+		m, _ := filepath.Glob(filepath.Join(wdir, "*.yml"))
+		sort.Strings(m)
+		if len(m) == 0 {
+			r.HarnessError("no workflows in %s", wdir)
+			continue
+		}
+		alone := map[string][]string{}
+		var rels []string
+		for _, f := range m {
+			rel, _ := filepath.Rel(root, f)
+			rels = append(rels, rel)
+			ds, err := c10Alone(root, rel, "", "")
+			if err != nil {
+				r.HarnessError("linting %s alone: %v", rel, err)
+				return
+			}
+			for _, d := range ds {
+				if !isOnce(d) {
+					alone[rel] = append(alone[rel], d)
+				}
+			}
+		}
+		type entry struct {
+			name string
+			run  func(l *Linter) ([]*Error, error)
+		}
+		entries := []entry{
+			{"LintRepository", func(l *Linter) ([]*Error, error) { return l.LintRepository(filepath.Join(root, repoDir)) }},
+			{"LintRepository(workflows dir)", func(l *Linter) ([]*Error, error) { return l.LintRepository(wdir) }},
+			{"LintDir(explicit project)", func(l *Linter) ([]*Error, error) {
+				p, err := NewProject(filepath.Join(root, repoDir))
+				if err != nil {
+					return nil, err
+				}
+				return l.LintDir(wdir, p)
+			}},
+			{"LintFiles(explicit project)", func(l *Linter) ([]*Error, error) {
+				p, err := NewProject(filepath.Join(root, repoDir))
+				if err != nil {
+					return nil, err
+				}
+				return l.LintFiles(m, p)
+			}},
+			{"LintFiles(nil)", func(l *Linter) ([]*Error, error) { return l.LintFiles(m, nil) }},
+		}
+		for _, en := range entries {
+			var out bytes.Buffer
+			l, err := NewLinter(&out, &LinterOptions{WorkingDir: root})
+			if err != nil {
+				r.HarnessError("%v", err)
+				return
+			}
+			errs, err := en.run(l)
+			r.Evaluations++
+			r.Transitions++
+			r.Validated++
+			what := fmt.Sprintf("entry point %s on %s (%d workflows)", en.name, repoDir, len(m))
+			replay := map[string]any{"scenario": "entry-points"}
+			if err != nil {
+				r.Violation("entry-point:fatal", fmt.Sprintf("%s: %v", what, err), replay)
+				continue
+			}
+			got := map[string][]string{}
+			for _, e := range errs {
+				if d := c10DiagKey(e); !isOnce(d) {
+					got[e.Filepath] = append(got[e.Filepath], d)
+				}
+			}
+			for f := range got {
+				if _, ok := alone[f]; !ok && !vContains(rels, f) {
+					r.Violation("entry-point:foreign-file", fmt.Sprintf("%s: diagnostics attributed to %q, which is not a workflow of that repository", what, f), replay)
+				}
+			}
+			for _, rel := range rels {
+				if strings.Join(got[rel], "\n") != strings.Join(alone[rel], "\n") {
+					r.Violation("entry-point:isolation:"+c10DiffClass(got[rel], alone[rel]), fmt.Sprintf("%s: file %s: diagnostics differ from linting it alone\n in run: %s\n alone:  %s", what, rel, strings.Join(c10Diff(got[rel], alone[rel]), " || "), strings.Join(c10Diff(alone[rel], got[rel]), " || ")), replay)
+				}
+			}
+			r.Class("entry-point "+en.name, true)
+		}
+	}
+}
+
+func vContains(xs []string, x string) bool {
+	for _, y := range xs {
+		if y == x {
+			return true
+		}
+	}
+	return false
 }
 
 func c10OnceKey(sc *c10Scenario, d string) string {
